@@ -315,7 +315,14 @@ impl Node {
                 // currently we only support comments
                 // report a warning on other cases
                 if ps.consume_str("--").is_some() {
-                    let s = ps.skip_until_after("-->").unwrap_or("");
+                    let s = match ps.skip_until_after("-->") {
+                        Some(s) => s,
+                        None => {
+                            // (the rest of the file has been skipped)
+                            ps.add_warning(ParseErrorKind::IncompleteTag, range.clone());
+                            ""
+                        }
+                    };
                     let location = range.start..ps.position();
                     ret.push(Node::Comment(Comment {
                         content: s.to_string(),
